@@ -11,6 +11,12 @@ NOTE = ("claims are over the reals within the bounds stated in the evidence file
         "classes and term transformations of /verif/vf (validated each run against the real code on floats), stub contracts listed in the evidence")
 
 CHECKS = {
+    "C01": ("5 C01", "4 process models x 3 permeate modes x {mass, mole} initial basis x programme kinds x curve-set shapes, N = 1,3 steps "
+                     "(thorough 1..5) with the flux solver / permeance / heats / best-fit search as arbitrary functions: series lengths, "
+                     "time grid, initial state, reported fluxes, total and first-component balance per step"),
+    "C03": ("5 C03", "same lifted process runs: evaporation heat = sum of permeated mass x own latent heat per kg, self-cooling update, "
+                     "programme value at k dt (3 programme kinds, real TemperatureProgram code), isothermal constancy, condensation heat "
+                     "reported iff a permeate temperature is given, isothermal/non-isothermal twin at step 0 (relational, congruence)"),
     "C02": ("5 C02", "flux solver unrolled to K loop iterations (quick 2, thorough 4) for 3 permeate modes x 2 activity models, activity "
                      "coefficients and saturation pressures as uninterpreted functions: law at a self-consistent iterate, vacuum / zero-pressure "
                      "/ fixed-pressure identities, permeance scaling (relational, with congruence)"),
